@@ -41,6 +41,7 @@ func profile() *vtx.Profile {
 					vtx.Event{K: "cbind", C: "c1", N: n, Peers: []string{"c1"}, L: -1},             // owner
 					vtx.Event{K: "cbind", C: "c2", N: n, Peers: []string{"c1"}, L: -1},             // other client, other user
 					vtx.Event{K: "cbind", C: "c1", N: n, Peers: []string{"c1"}, As: "u2", L: -1}, // right 5-tuple IP, wrong user
+					vtx.Event{K: "cbind", C: "c1", N: n, Peers: []string{"c1"}, Rule: "reset", L: -1}, // owner, data connection reset behind the request
 					vtx.Event{K: "closeconn", C: "c1", N: n, Rule: "peer", L: -1},
 				)
 				if cv.Bound {
